@@ -18,6 +18,7 @@
 //!   cancel
 //!   resolve <callid> <ok|err>
 //!   rule <KIND|*> <acc|rej|park> <count>
+//!   rule mset <k>        (closed loop only) births register the extra metric `x<k>` from now on, 0 = none
 //!   adv <ms>
 //!   cbpark <node|d> | cbrelease <node|d>
 //! Observations, `;`-joined in trace order (`-` when none):
@@ -59,7 +60,7 @@ use srad_eon::{
 use srad_types::payload::{metric, Metric, Payload};
 use std::collections::{BTreeMap, BTreeSet};
 use std::panic::AssertUnwindSafe;
-use std::sync::atomic::{AtomicBool, AtomicUsize, Ordering};
+use std::sync::atomic::{AtomicBool, AtomicU32, AtomicUsize, Ordering};
 use std::sync::{Arc, Mutex, OnceLock};
 use std::time::Duration;
 use tokio::sync::Notify;
@@ -138,6 +139,15 @@ pub fn token_id() -> &'static MetricToken<i64> {
     TOKEN_ID.get_or_init(|| boot_token("id"))
 }
 
+pub const MSET_MAX: u32 = 4;
+static TOKEN_X: OnceLock<Vec<MetricToken<i64>>> = OnceLock::new();
+
+/// the tokens of the extra metrics `x1` .. `x<MSET_MAX>` (`rule mset <k>`)
+pub fn token_x(k: u32) -> &'static MetricToken<i64> {
+    const NAMES: [&str; MSET_MAX as usize] = ["x1", "x2", "x3", "x4"];
+    &TOKEN_X.get_or_init(|| NAMES.iter().map(|n| boot_token(n)).collect())[(k - 1) as usize]
+}
+
 // ------------------------------------------------------------------------------------------
 // recording managers
 // ------------------------------------------------------------------------------------------
@@ -167,6 +177,10 @@ struct RecMgr {
     hub: Hub,
     dev: Option<u32>,
     ctl: Arc<CbCtl>,
+    /// closed loop, `rule mset <k>`: the extra metric `x<k>` every birth from now on registers (0 = none) …
+    want: Arc<AtomicU32>,
+    /// … and the one this object's latest birth registered
+    have: Arc<AtomicU32>,
 }
 
 impl MetricManager for RecMgr {
@@ -179,6 +193,11 @@ impl MetricManager for RecMgr {
             let _ = bi.register_metric(BirthMetricDetails::new_with_initial_value("id", v).use_alias(false));
         }
         let _ = bi.register_metric(BirthMetricDetails::new_with_initial_value("m", 1i64).use_alias(false));
+        let k = self.want.load(Ordering::SeqCst);
+        self.have.store(k, Ordering::SeqCst);
+        if k > 0 {
+            let _ = bi.register_metric(BirthMetricDetails::new_with_initial_value(format!("x{}", k), 0i64).use_alias(false));
+        }
     }
 }
 
@@ -232,7 +251,7 @@ async fn do_pub<P: MetricPublisher>(p: &P, mode: &str, ms: Vec<PublishMetric>) -
     }
 }
 
-fn metrics(n: usize) -> Vec<PublishMetric> {
+fn metrics(n: usize, xk: u32) -> Vec<PublishMetric> {
     // descending timestamps, so that the sorting variants have something to do
     (0..n)
         .map(|i| {
@@ -240,6 +259,8 @@ fn metrics(n: usize) -> Vec<PublishMetric> {
             match (i, if i == 0 { fresh_id() } else { None }) {
                 // id mode: the first metric of every publish is `id = <fresh>`
                 (0, Some(v)) => token_id().create_publish_metric(Some(v)).timestamp(ts),
+                // `rule mset`: the second metric of a node publish is the extra metric of the node's latest birth
+                (1, _) if xk > 0 => token_x(xk).create_publish_metric(Some(i as i64)).timestamp(ts),
                 _ => token().create_publish_metric(Some(i as i64)).timestamp(ts),
             }
         })
@@ -922,6 +943,9 @@ pub struct Sess {
     inject: Option<Event>,
     /// the `eon new …` request line `begin` emitted
     pub first_line: String,
+    /// `rule mset <k>`: the extra metric births register from now on / the one the node's latest birth registered
+    xwant: Arc<AtomicU32>,
+    node_x: Arc<AtomicU32>,
 }
 
 impl Sess {
@@ -931,13 +955,16 @@ impl Sess {
         let node_ctl = Arc::new(CbCtl::default());
         let h2 = hub.clone();
         let c2 = node_ctl.clone();
+        let xwant = Arc::new(AtomicU32::new(0));
+        let node_x = Arc::new(AtomicU32::new(0));
+        let (xw2, nx2) = (xwant.clone(), node_x.clone());
         let node = rt.block_on(async move {
             set_clocks(1_000_000);
             let (eon, node) = EoNBuilder::new(el, client)
                 .with_group_id("g")
                 .with_node_id("n1")
                 .with_rebirth_cmd_cooldown(Duration::from_millis(cd))
-                .with_metric_manager(RecMgr { hub: h2.clone(), dev: None, ctl: c2 })
+                .with_metric_manager(RecMgr { hub: h2.clone(), dev: None, ctl: c2, want: xw2, have: nx2 })
                 .build()
                 .unwrap();
             let hx = h2.clone();
@@ -968,6 +995,8 @@ impl Sess {
             yields: 0,
             inject: None,
             first_line: String::new(),
+            xwant,
+            node_x,
         }
     }
 
@@ -1127,9 +1156,10 @@ impl Sess {
         self.cur_j = Some(j);
         let hub = self.hub.clone();
         let h = self.node.clone();
+        let xk = self.node_x.load(Ordering::SeqCst);
         tokio::spawn(async move {
             let mut g = Guard { hub: hub.clone(), label: format!("U{}", j), done: false };
-            let r = do_pub(&h, &mode, metrics(n)).await;
+            let r = do_pub(&h, &mode, metrics(n, xk)).await;
             g.done = true;
             hub.note(format!("U{}:{}", j, match r {
                 Ok(()) => "ok".to_string(),
@@ -1152,7 +1182,7 @@ impl Sess {
         let hub = self.hub.clone();
         tokio::spawn(async move {
             let mut g = Guard { hub: hub.clone(), label: format!("U{}", j), done: false };
-            let r = do_pub(&h, &mode, metrics(n)).await;
+            let r = do_pub(&h, &mode, metrics(n, 0)).await;
             g.done = true;
             hub.note(format!("U{}:{}", j, match r {
                 Ok(()) => "ok".to_string(),
@@ -1217,7 +1247,7 @@ impl Sess {
             }
             "reg" => {
                 let d: u32 = w[1].parse().unwrap();
-                let mgr = RecMgr { hub: self.hub.clone(), dev: Some(d), ctl: self.ctl(d) };
+                let mgr = RecMgr { hub: self.hub.clone(), dev: Some(d), ctl: self.ctl(d), want: self.xwant.clone(), have: Arc::new(AtomicU32::new(0)) };
                 match self.node.register_device(format!("d{}", d), mgr) {
                     Ok(h) => {
                         self.devs.insert(d, h);
@@ -1277,6 +1307,13 @@ impl Sess {
                     x => panic!("bad resolution {}", x),
                 };
                 self.hub.resolve(id, ok);
+            }
+            // closed loop: from the next birth on the managers register the extra metric `x<k>` (0 = none).
+            // A policy line without effect for the model (it is rendered `rule mset <k>`); no observation.
+            "rule" if w[1] == "mset" => {
+                let k: u32 = w[2].parse().unwrap();
+                assert!(k <= MSET_MAX, "mset {} out of range", k);
+                self.xwant.store(k, Ordering::SeqCst);
             }
             "rule" => {
                 let kind = if w[1] == "*" { None } else { Some(Kind::from_name(w[1]).unwrap_or_else(|| panic!("bad kind {}", w[1]))) };
@@ -1344,6 +1381,7 @@ impl Sess {
                 }
             }
             "ncmd" => format!("stim:ncmd:{}", w[1..].join(",")),
+            "rule" if w[1] == "mset" => "stim:rule:mset".to_string(),
             "rule" => format!("stim:rule:{}", w[2]),
             "resolve" => format!("stim:resolve:{}", w[2]),
             "cbpark" | "cbrelease" => format!("stim:{}:{}", w[0], if w[1] == "node" { "node" } else { "dev" }),
